@@ -154,6 +154,8 @@ def run(ctx, verdict, replay=None, model_ok=True):
             jobs.append(vengen.gen_job(rng, 4 if thorough else 3))
         for _ in range(600 if thorough else 60):
             jobs.append(vengen.deep_path_job(rng))
+        for _ in range(500 if thorough else 50):
+            jobs.append(vengen.two_level_job(rng))
     binp = core.build_harness(ctx, "verifh_ven")
     ydir = os.path.join(ctx.scratch, "yaml")
     os.makedirs(ydir, exist_ok=True)
@@ -180,7 +182,7 @@ def run(ctx, verdict, replay=None, model_ok=True):
         cases = "[" + ";\n".join(res[i]["term"] for i in ids) + "]"
         pre = PREAMBLE + "Definition cases : list vcase :=\n%s.\n" % cases
         r = core.coq_eval_lists(ctx, "cases_C17_%d" % k, pre, [
-            ("CODES", "ven_codes cases"),
+            ("CODES", "ven_codes cases"), ("CODES2", "map ven_code2 cases"),
             ("WC", "codes pf_wt wt_culprit cases"), ("FC", "codes pf_frame frame_culprit cases")])
         return ids, r
 
@@ -190,8 +192,8 @@ def run(ctx, verdict, replay=None, model_ok=True):
     for ids, r in parts:
         if len(r["CODES"]) != len(ids):
             raise RuntimeError("case evaluation returned %d codes for %d cases" % (len(r["CODES"]), len(ids)))
-        for i, c in zip(ids, r["CODES"]):
-            code[i] = c
+        for i, c, c2 in zip(ids, r["CODES"], r["CODES2"]):
+            code[i] = c + 4096 * c2
         wt_ids = [i for i in ids if code[i] & 8]
         fr_ids = [i for i in ids if code[i] & 16]
         for i, c in zip(wt_ids, r["WC"]):
@@ -206,6 +208,8 @@ def run(ctx, verdict, replay=None, model_ok=True):
     ctx.log("coq evaluated %d cases: mismatch=%d wt=%d frame=%d contract=%d last-duplicate=%d last-compose=%d" % (
         len(ok_idx), len(mm), len(pf_wt), len(pf_fr), len(pf_ct),
         sum(has(i, 1024) for i in ok_idx), sum(has(i, 2048) for i in ok_idx)))
+    ctx.log("language-level rules against the state after the common level: contract=%d frame=%d" % (
+        sum(has(i, 4096) for i in ok_idx), sum(has(i, 8192) for i in ok_idx)))
 
     # property failures on the implementation's own output; smallest case of each signature first
     explained = set()
@@ -236,6 +240,20 @@ def run(ctx, verdict, replay=None, model_ok=True):
     for i in by_size([i for i in ok_idx if has(i, 2048)]):
         report(i, {"what": "contract", "rule": "builder:compose", "as": "last-builder-rule"},
                "in_claim -> a composed builder sets its own schema's identifier   (Model/VeneersSpec.v pf_last_compose)")
+    def language_rules(job):
+        ks = []
+        for f in job["files"]:
+            if f["language"] == job["language"]:
+                ks += ["builder:" + (list(r.keys()) or ["empty"])[0] for r in f["builders"]]
+                ks += ["option:" + (list(r.keys()) or ["empty"])[0] for r in f["options"]]
+        return ks
+    for i in by_size([i for i in ok_idx if has(i, 4096)]):
+        ks = language_rules(jobs[i])
+        report(i, {"what": "contract", "rule": ks[-1] if ks else "unknown", "as": "language-level-rule-after-common-level"},
+               "in_claim -> contract of the single language-level rule against the builders after the common level (computed by the model)   (Model/VeneersSpec.v pf_language_contract)")
+    for i in by_size([i for i in ok_idx if has(i, 8192)]):
+        report(i, {"what": "frame", "as": "language-level-rules-after-common-level"},
+               "in_claim -> frame_ok of the language-level rules against the builders after the common level (computed by the model)   (Model/VeneersSpec.v pf_language_frame)")
     unexplained = [{"job": strip_job(jobs[i]), "observed": res[i]["outcome"][:3000], "rules_in_order": rule_kinds(jobs[i])}
                    for i in mm if i not in explained]
     ctx.log("mismatches not explained by a property failure: %d" % len(unexplained))
